@@ -12,6 +12,7 @@ theorem generated_discipline : disciplineOk = true := by decide
 theorem generated_racy_sites_known : racySites.all (["Components.MapToTags.Run"].contains ·) = true := by decide
 
 
+
 -- BEGIN PINS (written by bin/mkpins; do not edit by hand)
 /-- the Go functions this property's model and obligations were written against have exactly the
 pinned skeletons (SHA-256 prefix of the atom list) -/
